@@ -41,6 +41,8 @@ enum Db {
     /// sixty analogs and six binaries: read analogs first, so that the packed binaries land
     /// in a later fragment (at 249) and their flags can change while the series is under way
     D5,
+    /// three points (indices 0, 1, 2) of each of the seven measurement types
+    D6,
 }
 
 fn static_group(k: Kind) -> u8 {
@@ -157,6 +159,13 @@ fn build(db_kind: Db, sim: &mut OSim) -> Mirror {
                 add(sim, &mut m, Kind::Binary, i, None);
             }
         }
+        Db::D6 => {
+            for k in [Kind::Binary, Kind::DoubleBit, Kind::BinaryOutputStatus, Kind::Counter, Kind::FrozenCounter, Kind::Analog, Kind::AnalogOutputStatus] {
+                for i in 0..3 {
+                    add(sim, &mut m, k, i, None);
+                }
+            }
+        }
     }
     // initial values (newly added points carry the RESTART flag until updated)
     let keys: Vec<(Kind, u32)> = m.keys().cloned().collect();
@@ -244,7 +253,7 @@ fn reads(db: Db) -> Vec<Vec<Hdr>> {
         Db::D2 => (30, 2, 2),
         Db::D3 => (30, 100, 2),
         Db::D4 => (1, 10, 2),
-        Db::D5 => unreachable!(),
+        Db::D5 | Db::D6 => unreachable!(),
     };
     let mut v = vec![
         vec![Hdr::Class0],
@@ -322,8 +331,14 @@ fn val_matches(m: &Meas, p: &PointVal) -> bool {
 }
 
 impl C11 {
-    /// check a completed series against the snapshot
     fn check_complete(&self, s: &Series) -> Option<Violation> {
+        check_complete_series(s)
+    }
+}
+
+/// check a completed series against the snapshot
+fn check_complete_series(s: &Series) -> Option<Violation> {
+    {
         let stat: Vec<&Meas> = s.collected.iter().filter(|m| !m.is_event).collect();
         let mut p = 0usize;
         for h in &s.hdrs {
@@ -542,6 +557,7 @@ impl Scenario for C11 {
                         (Db::D4, _) => (Kind::Binary, 4),
                         (Db::D5, Ev::UpdIn) => (Kind::Binary, 2),
                         (Db::D5, _) => (Kind::Binary, 3),
+                        (Db::D6, _) => (Kind::Binary, 1),
                     };
                     let cur = mirror[&(k, idx as u32)].clone();
                     let num = match k {
@@ -1329,6 +1345,118 @@ impl crate::explore::CaseSpace for ClassZero {
     }
 }
 
+// ---------------------------------------------------------------------------------------
+// every requestable static variation x qualifier; READs at a configured header limit
+// ---------------------------------------------------------------------------------------
+
+/// Three points of each of the seven types. (1) READ g<N>v<M> for every static variation of every
+/// type (26) x {all objects, 8-bit range 1..=2, 16-bit range 0..=1}: exactly the selected points,
+/// in the requested variation (or its flagged promotion), with the snapshot's values. (2) the
+/// configured limit of READ headers L in {65, 70, 100} (above the minimum of 64): a READ of
+/// exactly L one-point headers is answered completely, each header with its point.
+struct RequestedVariations;
+
+const RV_STATIC: [(u8, &[u8]); 7] = [(1, &[1, 2]), (3, &[1, 2]), (10, &[1, 2]), (20, &[1, 2, 5, 6]), (21, &[1, 2, 5, 6, 9, 10]), (30, &[1, 2, 3, 4, 5, 6]), (40, &[1, 2, 3, 4])];
+const RV_LIMITS: [u16; 3] = [65, 70, 100];
+
+impl RequestedVariations {
+    fn gvs() -> Vec<(u8, u8)> {
+        RV_STATIC.iter().flat_map(|(g, vs)| vs.iter().map(move |v| (*g, *v))).collect()
+    }
+}
+
+impl crate::explore::CaseSpace for RequestedVariations {
+    fn name(&self) -> String {
+        "requested-variations".into()
+    }
+    fn seeded(&self) -> bool {
+        true
+    }
+    fn total(&self) -> usize {
+        Self::gvs().len() * 3 + RV_LIMITS.len()
+    }
+    fn run(&self, index: usize, transcript: bool) -> RunResult {
+        let mut res = RunResult::default();
+        res.obs = index as u64 + 313131;
+        let gvs = Self::gvs();
+        let (hdrs, limit): (Vec<Hdr>, Option<u16>) = if index < gvs.len() * 3 {
+            let (g, v) = gvs[index / 3];
+            let h = match index % 3 {
+                0 => Hdr::All(g, v),
+                1 => Hdr::Range8(g, v, 1, 2),
+                _ => Hdr::Range16(g, v, 0, 1),
+            };
+            (vec![h], None)
+        } else {
+            let l = RV_LIMITS[index - gvs.len() * 3];
+            let hs = (0..l)
+                .map(|k| {
+                    let (g, vs) = RV_STATIC[k as usize % 7];
+                    let i = (k % 3) as u8;
+                    Hdr::Range8(g, vs[0], i, i)
+                })
+                .collect();
+            (hs, Some(l))
+        };
+        let cfg = OCfg { sol_tx: 2048, confirm_timeout_ms: TO, max_read_headers: limit, ..Default::default() };
+        let mut sim = OSim::new(&cfg, 1);
+        let snap = build(Db::D6, &mut sim);
+        sim.take_out();
+        let objs: Vec<u8> = hdrs.iter().flat_map(|h| h.bytes()).collect();
+        sim.send(&app::request(3, fc::READ, &objs));
+        res.transitions += 1;
+        let rs: Vec<app::Resp> = sim.take_out().iter().filter_map(|t| t.frag()).filter_map(app::Resp::parse).collect();
+        if let Some(f) = sim.failure() {
+            res.violation = Some(Violation::new("C11.X0", f.clone(), f));
+            return res;
+        }
+        let key = if limit.is_some() { format!("limit-{}", limit.unwrap()) } else { format!("{:?}", hdrs[0]) };
+        if transcript {
+            res.transcript.push(format!("READ {key}: {}", app::hex(&objs[..objs.len().min(60)])));
+            for r in &rs {
+                res.transcript.push(format!("<- {}", app::hex(&r.raw[..r.raw.len().min(120)])));
+            }
+        }
+        if rs.len() != 1 || !rs[0].fir() || !rs[0].fin() || rs[0].seq() != 3 {
+            res.violation = Some(Violation::new("C11.R0", "not-answered-in-one-fragment", format!("{key}: {} response fragments", rs.len())));
+            return res;
+        }
+        if rs[0].iin2 & app::iin2::ERROR_MASK != 0 {
+            res.violation = Some(Violation::new("C11.R1", "well-formed-read-rejected", format!("{key}: IIN2={:02X}", rs[0].iin2)));
+            return res;
+        }
+        let ms = match rs[0].headers().map_err(|e| format!("{e:?}")).and_then(|h| decode_measurements(&h)) {
+            Ok(m) => m,
+            Err(e) => {
+                res.violation = Some(Violation::new("C11.G6", "objects-not-decodable", e));
+                return res;
+            }
+        };
+        let series = Series {
+            seq0: 3,
+            hdrs,
+            snap,
+            next_seq: 4,
+            awaiting: None,
+            confirmed: false,
+            frags: 1,
+            collected: ms,
+            saw_static: true,
+            done: true,
+            dead: false,
+            deadline: None,
+        };
+        if let Some(mut v) = check_complete_series(&series) {
+            v.key = format!("{}:{key}", v.key);
+            res.violation = Some(v);
+            return res;
+        }
+        res.nontrivial = true;
+        res.model_states.push(index as u64);
+        res
+    }
+}
+
 pub fn replay(scenario: &str, path: &[usize]) -> Option<RunResult> {
     {
         use crate::explore::CaseSpace;
@@ -1344,6 +1472,9 @@ pub fn replay(scenario: &str, path: &[usize]) -> Option<RunResult> {
         if scenario == ClassZero.name() {
             return Some(ClassZero.run(path[0], true));
         }
+        if scenario == RequestedVariations.name() {
+            return Some(RequestedVariations.run(path[0], true));
+        }
     }
     scenarios("thorough").into_iter().find(|s| s.name == scenario).map(|s| s.run(path, true))
 }
@@ -1357,9 +1488,10 @@ pub fn check(tier: &str) -> i32 {
     c.cases(&EventSeries);
     c.cases(&DeferredReads);
     c.cases(&ClassZero);
+    c.cases(&RequestedVariations);
     c.finish(
         "model_checking",
-        "every event history over the listed alphabet (8-10 READ requests per database: class 0, class 1230, all objects, 8/16-bit ranges inside / overlapping / outside the index set, a specific variation, several headers; right / wrong / late solicited confirm, confirm timeout, another request, reconnect, update of a selected and of another point) up to the listed depth on five databases (packed binaries; eight types with sparse indices; 100 analogs; binaries with mixed flags; 60 analogs followed by binaries whose *flags* are updated while the series is under way) and three transmit buffer sizes; a mirrored database is snapshotted when each READ is delivered and the concatenated series is compared with it; plus timing histories (three fifths of the confirm timeout pass; the wait for a confirm ends at its deadline whatever else arrived meanwhile), and a product of waiting event counts {1,17,18,19,30,37,60} x transmit sizes {249,251,300,2048} x static tails {none, g1v0, class 0, g30 range} read together with classes 1/2/3 (every waiting event exactly once and in order, before any static object); the class 0 configuration (no type, each single type, all but one, every type left out) against a database with one point of every type; and one or two READs (every ordered pair of 5 requests) deferred during an unsolicited confirm wait that ends by confirm or time-out, with and without an update between them: one answer, with the last READ's sequence number and exactly its selection at current values; non-trivial = a series completed (and spanned several fragments for the small buffers); distinct = distinct observation trace",
+        "every event history over the listed alphabet (8-10 READ requests per database: class 0, class 1230, all objects, 8/16-bit ranges inside / overlapping / outside the index set, a specific variation, several headers; right / wrong / late solicited confirm, confirm timeout, another request, reconnect, update of a selected and of another point) up to the listed depth on five databases (packed binaries; eight types with sparse indices; 100 analogs; binaries with mixed flags; 60 analogs followed by binaries whose *flags* are updated while the series is under way) and three transmit buffer sizes; a mirrored database is snapshotted when each READ is delivered and the concatenated series is compared with it; plus timing histories (three fifths of the confirm timeout pass; the wait for a confirm ends at its deadline whatever else arrived meanwhile), and a product of waiting event counts {1,17,18,19,30,37,60} x transmit sizes {249,251,300,2048} x static tails {none, g1v0, class 0, g30 range} read together with classes 1/2/3 (every waiting event exactly once and in order, before any static object); the class 0 configuration (no type, each single type, all but one, every type left out) against a database with one point of every type; every static variation of every type (26) requested by all-objects / 8-bit range / 16-bit range against three points of each type, and READs of exactly 65 / 70 / 100 one-point headers with that number configured as the header limit; and one or two READs (every ordered pair of 5 requests) deferred during an unsolicited confirm wait that ends by confirm or time-out, with and without an update between them: one answer, with the last READ's sequence number and exactly its selection at current values; non-trivial = a series completed (and spanned several fragments for the small buffers); distinct = distinct observation trace",
         &[
             "updates are placed at quiescent points between fragments (H6 lock-point placements are not built)",
             "values are small integers representable in every variation used (variation-specific carrying is C10's subject)",
